@@ -771,22 +771,17 @@ theorem renumber_masked (k : Nat) (lm : List (String × Bool)) :
       simp only [masked] at this
       simp [masked, renumber, this, List.range_succ_eq_map, Nat.add_assoc, Nat.add_comm 1]
 
-theorem replaceMask_spec (lab : String) (par : Option String) (m : Bool) (h : replaceMask lab par = some m) :
-    (m = true ↔ (isFloatLabel lab = true ∧ ∃ q, par = some q ∧ lower q ≠ noReplaceParent) ∨ isParamLabel lab = true) := by
-  unfold replaceMask at h
-  split at h
+theorem replaceMask_spec (lab : String) (par : Option String) :
+    (replaceMask lab par = true ↔
+      (isFloatLabel lab = true ∧ ¬ ∃ q, par = some q ∧ lower q = noReplaceParent) ∨ isParamLabel lab = true) := by
+  unfold replaceMask
+  split
   · rename_i hf
     cases par with
-    | none => simp at h
-    | some q =>
-      simp at h
-      subst h
-      simp [hf]
+    | none => simp [hf]
+    | some q => simp [hf]
   · rename_i hf
-    simp at h
-    subst h
     simp [hf]
-
 
 theorem stepNode_len {a i : Nat} {st st' : St} (h : stepNode a i st = some st') : st'.parent.length = st.parent.length := by
   unfold stepNode at h
@@ -874,7 +869,7 @@ theorem relabel_spec_aux (B : Basis) (rf : Bool) (mv : Nat) (raw out : List Stri
         parentsOf (raw.map canon) s = some parents ∧
         parents.length = raw.length ∧ mask.length = raw.length ∧
         (∀ (j : Nat) lab par m, (raw.map canon)[j]? = some lab → parents[j]? = some par → mask[j]? = some m →
-           (m = true ↔ (isFloatLabel lab = true ∧ ∃ q, par = some q ∧ lower q ≠ noReplaceParent) ∨ isParamLabel lab = true)) ∧
+           (m = true ↔ (isFloatLabel lab = true ∧ ¬ ∃ q, par = some q ∧ lower q = noReplaceParent) ∨ isParamLabel lab = true)) ∧
         (∀ (j : Nat) lab, (raw.map canon)[j]? = some lab → mask[j]? = some false → out[j]? = some lab) ∧
         ∃ n, masked out mask = (List.range n).map (fun i => "a" ++ toString i)) := by
   unfold relabel at h
@@ -897,24 +892,24 @@ theorem relabel_spec_aux (B : Basis) (rf : Bool) (mv : Nat) (raw out : List Stri
           simp at h; subst h
           exact ⟨by simp, fun _ => rfl, fun hc => by simp at hc⟩
         | true =>
-          simp only [if_true] at h
-          split at h
-          · simp at h
-          · rename_i mask hm
-            simp at h; subst h
-            have hlen_m : mask.length = raw.length := by
-              have := mapM_some_length _ _ _ hm
-              simp [hlen_p] at this
-              exact this
-            refine ⟨by simp [renumber_length, hlen_m], fun hc => by simp at hc, fun _ => ⟨s, parents, mask, hs, hp, hlen_p, hlen_m, ?_, ?_, ?_⟩⟩
-            · intro j lab par m hl hpar hmk
-              have := mapM_some_get _ _ _ hm j (lab, par) m (by simp [List.getElem?_zip_eq_some, hl, hpar]) hmk
-              exact replaceMask_spec lab par m this
-            · intro j lab hl hmk
-              exact renumber_keep 0 _ j lab (by simp [List.getElem?_zip_eq_some, hl, hmk])
-            · have := renumber_masked 0 ((raw.map canon).zip mask)
-              rw [List.map_snd_zip (by simp [hlen_m])] at this
-              exact ⟨_, by simpa using this⟩
+          simp only [if_true, Option.some.injEq] at h
+          subst h
+          have hlen_m : (((raw.map canon).zip parents).map fun lp => replaceMask lp.1 lp.2).length = raw.length := by
+            simp [hlen_p]
+          refine ⟨by simp [renumber_length, hlen_p], fun hc => by simp at hc,
+            fun _ => ⟨s, parents, _, hs, hp, hlen_p, hlen_m, ?_, ?_, ?_⟩⟩
+          · intro j lab par m hl hpar hmk
+            have hz : ((raw.map canon).zip parents)[j]? = some (lab, par) := by
+              simp [List.getElem?_zip_eq_some, hl, hpar]
+            rw [List.getElem?_map, hz] at hmk
+            simp at hmk
+            rw [← hmk]
+            exact replaceMask_spec lab par
+          · intro j lab hl hmk
+            exact renumber_keep 0 _ j lab (by simp [List.getElem?_zip_eq_some, hl, hmk])
+          · have := renumber_masked 0 ((raw.map canon).zip (((raw.map canon).zip parents).map fun lp => replaceMask lp.1 lp.2))
+            rw [List.map_snd_zip (by simp [hlen_p])] at this
+            exact ⟨_, by simpa using this⟩
 
 /-! ### building blocks for the non-vacuity examples -/
 
